@@ -154,18 +154,21 @@ Theorem C05_mailbox_explicit_numbering_safe :
 Proof. exact numbered_delivery_safe. Qed.
 Print Assumptions C05_mailbox_explicit_numbering_safe.
 
-(* Explicit numbering, liveness (eager mode, no kill): when the numbering is a permutation of 0..N-1 that
-   `fits` the capacity -- before every send, fewer than `capacity` of the numbers already sent lie above
-   the lowest number not yet sent -- every reachable state has an enabled thread or all threads have
-   finished, and then every subscriber has exactly the messages in number order. *)
+(* Explicit numbering, liveness (no kill; eager mode, and lazy mode through the fetch gate as repaired by
+   /repo ede7cda, with any driver mask containing a driver): when the numbering is a permutation of
+   0..N-1 that `fits` the capacity -- before every send, fewer than `capacity` of the numbers already sent
+   lie above the lowest number not yet sent (always true for an unbounded mailbox) -- every reachable state
+   has an enabled thread or all threads have finished, and then every subscriber has exactly the messages
+   in number order.  (With the gate as it was before ede7cda -- Model/Mailbox.v can_fetch_pinned -- lazy
+   mode deadlocked on out-of-order numbers: Proof/MailboxExamples.v ex_lazy_out_of_order_gate.) *)
 Theorem C05_mailbox_explicit_numbering :
   forall (cfg : config) (items : list (nat * msg)) (nfut : nat),
     Permutation (map fst items) (seq 0 (length items)) ->
     (forall k m, In (k, m) items -> is_stop m = false) ->
-    c_lazy cfg = false ->
     (forall k v n, In (n, Fut k v) items -> k < nfut) ->
     forall (drives : list bool) (sched : list tid) (st : state),
       drives <> [] -> (forall c, c_cap cfg = Some c -> 1 <= c) -> fits (c_cap cfg) (map fst items) ->
+      (c_lazy cfg = true -> In true drives) ->
       run cfg (init cfg drives (numbered_source items) None nfut) sched = Some st ->
       ((exists t, enabled st t = true) \/ all_terminal st = true) /\
       (forall i r, nth_error (rds st) i = Some r ->
